@@ -238,6 +238,44 @@ fixed_word_shift_borrowed!(shl_fixedb_0, shr_fixedb_0, 0);
 fixed_word_shift_borrowed!(shl_fixedb_1, shr_fixedb_1, 1);
 fixed_word_shift_borrowed!(shl_fixedb_7, shr_fixedb_7, 7);
 fixed_word_shift_borrowed!(shl_fixedb_15, shr_fixedb_15, 15);
+// same idea with a two-way case split on the word count (0 or 1): each arm enters the REAL kernel with a concrete word shift.
+// Used by the C13 Stein-gcd harness on operands whose low word is zero (word shift 1 first, 0 inside the loop, 1 at the end).
+pub(crate) fn shl_split01<T: PrimInt>(n: Cow<'_, BigUint>, shift: T) -> BigUint {
+    if shift < T::zero() {
+        panic!("attempt to shift left with negative");
+    }
+    if n.is_zero() {
+        return BigUint::ZERO;
+    }
+    let bits = T::from(big_digit::BITS).unwrap();
+    let dg = (shift / bits).to_usize();
+    let sh = (shift % bits).to_u8().unwrap();
+    let b: &BigUint = &n;
+    if dg == Some(0) {
+        biguint_shl2(Cow::Borrowed(b), 0, sh)
+    } else {
+        kani::assert(dg == Some(1), "VERIF harness word count mismatch");
+        biguint_shl2(Cow::Borrowed(b), 1, sh)
+    }
+}
+pub(crate) fn shr_split01<T: PrimInt>(n: Cow<'_, BigUint>, shift: T) -> BigUint {
+    if shift < T::zero() {
+        panic!("attempt to shift right with negative");
+    }
+    if n.is_zero() {
+        return BigUint::ZERO;
+    }
+    let bits = T::from(big_digit::BITS).unwrap();
+    let dg = (shift / bits).to_usize();
+    let sh = (shift % bits).to_u8().unwrap();
+    let b: &BigUint = &n;
+    if dg == Some(0) {
+        biguint_shr2(Cow::Borrowed(b), 0, sh)
+    } else {
+        kani::assert(dg == Some(1), "VERIF harness word count mismatch");
+        biguint_shr2(Cow::Borrowed(b), 1, sh)
+    }
+}
 fixed_word_shift!(shl_fixed_0, shr_fixed_0, 0);
 fixed_word_shift!(shl_fixed_1, shr_fixed_1, 1);
 fixed_word_shift!(shl_fixed_2, shr_fixed_2, 2);
